@@ -404,11 +404,11 @@ func bumpRV(m *metav1.ObjectMeta) {
 func cidrTokOfString(s string) string {
 	_, n, err := netutils.ParseCIDRSloppy(s)
 	if err != nil {
-		return "?" + s
+		return "?"
 	}
 	c, ok := canon.FromIPNet(n)
 	if !ok || n.String() != s {
-		return "?" + s
+		return "?"
 	}
 	return c.Tok()
 }
